@@ -184,6 +184,9 @@ class KroneckerProductLinearOperator(LinearOperator):
         return KroneckerProductTriangularLinearOperator(*chol_factors, upper=upper)
 
     def _diagonal(self: Float[LinearOperator, "... M N"]) -> Float[torch.Tensor, "... N"]:
+        if not all(linear_op.is_square for linear_op in self.linear_ops):
+            # the product of the factors' diagonals is the diagonal only if every factor is square
+            return super()._diagonal()
         return _kron_diag(*self.linear_ops)
 
     def _expand_batch(
